@@ -16,6 +16,7 @@ struct verif_ghost {
     const uint8_t *crc_ptr; uint32_t crc_len; uint32_t crc_res; unsigned crc_seq;
     unsigned seq;          /* event counter */
     unsigned module_new_seq;
+    int partial;           /* loader: some known section was not consumed to its end (C12.whole) */
     /* execute / verify bookkeeping (C13, C18, C05) */
     const void *verified_module;
     int executed;
